@@ -2,7 +2,7 @@
    Property theorems only; proofs are in Proofs1-5.v. *)
 From Coq Require Import List NArith Bool.
 From TV Require Import Lib.Obs Lib.C21_Utf8 Lib.C21_Pct C31.Model C31.Spec C31.Run
-     C31.Proofs1 C31.Proofs2 C31.Proofs3 C31.Proofs4 C31.Proofs5 C31.Proofs6 C31.Proofs7 C31.Proofs8.
+     C31.Proofs1 C31.Proofs2 C31.Proofs3 C31.Proofs4 C31.Proofs5 C31.Proofs6 C31.Proofs7 C31.Proofs8 C31.ProofsP4.
 Import ListNotations.
 Local Open Scope N_scope.
 
@@ -230,3 +230,37 @@ Theorem C31_constructor_handlers_come_after_host_groups :
     exists args, app_find a rq = RtHandler h args /\ leaf_args rq m args.
 Proof. exact constructor_handlers_after_host_groups. Qed.
 Print Assumptions C31_constructor_handlers_come_after_host_groups.
+
+(* Named groups.  The first matching leaf's groups are handed over by keyword
+   exactly when its pattern names them (all of them): the observable of the
+   dispatch is route_obs (kw_names ...) of the handler and its unquoted captures. *)
+Theorem C31_named_groups_dispatch_by_keyword :
+  forall a rq l1 anc p h l2,
+    valid_text (rq_path rq) ->
+    leaves (app_rules a) = l1 ++ (anc, MPath p, h) :: l2 ->
+    (forall lf, In lf l1 -> ~ leaf_accepts rq lf) ->
+    leaf_accepts rq (anc, MPath p, h) ->
+    exists args, app_find a rq = RtHandler h args /\ leaf_args rq (MPath p) args /\
+                 hit_kw a rq = kw_names (pm_names p) /\
+                 route_obs_at a rq (app_find a rq) = route_obs (kw_names (pm_names p)) (RtHandler h args).
+Proof. exact named_dispatch. Qed.
+Print Assumptions C31_named_groups_dispatch_by_keyword.
+
+(* each capture is paired with exactly one name, in group order, URL-unescaped *)
+Theorem C31_named_captures_pair_up :
+  forall p path args ns,
+    built p -> pm_match p path = MHit args -> kw_names (pm_names p) = Some ns ->
+    length ns = length args /\
+    exists caps, pm_parse p path caps /\ map_opt unq caps = Some args /\
+                 map fst (combine ns args) = ns /\ map snd (combine ns args) = args.
+Proof. exact named_captures_pair_up. Qed.
+Print Assumptions C31_named_captures_pair_up.
+
+(* a pattern mixing named and unnamed groups is refused at construction
+   (the code asserts; it does not fall back to positional arguments) *)
+Theorem C31_mixed_named_and_unnamed_groups_refused :
+  forall pat n,
+    In (Some n) (pat_names (add_dollar pat)) -> In None (pat_names (add_dollar pat)) ->
+    compile_path pat = None.
+Proof. exact mixed_groups_refused. Qed.
+Print Assumptions C31_mixed_named_and_unnamed_groups_refused.
